@@ -404,7 +404,14 @@ func (u *Unit) timeModel(st *State, fr *Frame, in *ssa.Call, fn *ssa.Function, a
 	if fn.Signature.Recv() == nil {
 		switch fn.Name() {
 		case "Now":
-			return TimeV{NS: u.newInt("now")}, true
+			// A-CLOCK: successive readings of the clock on one path do not decrease
+			n := u.newInt("now")
+			if last, ok := st.memo["time.Now:last"]; ok {
+				u.Assumed["A-CLOCK: successive time.Now() readings on a path are non-decreasing"]++
+				u.assume(Le(last.(TimeV).NS, n))
+			}
+			st.memo["time.Now:last"] = TimeV{NS: n}
+			return TimeV{NS: n}, true
 		case "Unix":
 			return TimeV{NS: Add(Mul(bil, args[0].(*Term)), args[1].(*Term))}, true
 		case "UnixMilli":
